@@ -166,7 +166,13 @@ def cWriteF (c : Cfg) (fc : FCfg) (mk : Mk) (st : CFSt) (items : List (Op × Nat
         if s.failed then none else some s
       | some _ =>
         match openWriter c st.d .main st.cs.nlName st.cs.bs with
-        | some (w, _) => some { w := w, d := st.d, rs := st.rs }
+        | some (w, oo) =>
+          -- the repaired open may recreate the file or cut a torn tail: real operations with results
+          let s0 : FSt := { w := w, d := st.d, rs := st.rs }
+          let s1 := oo.foldl (fun (s : FSt) op => if s.failed then s else
+            let (s', r) := s.issue op
+            { s' with failed := !r.isOk }) s0
+          if s1.failed then none else some s1
         | none => none
   match opened with
   | none =>
@@ -175,6 +181,15 @@ def cWriteF (c : Cfg) (fc : FCfg) (mk : Mk) (st : CFSt) (items : List (Op × Nat
     | none, none =>
       let s := createWF .main st.cs.nlName st.cs.bs st.d st.rs
       ⟨{ st with d := s.d, rs := s.rs }, s.ops, false⟩
+    | none, some _ =>
+      match openWriter c st.d .main st.cs.nlName st.cs.bs with
+      | some (w, oo) =>
+        let s0 : FSt := { w := w, d := st.d, rs := st.rs }
+        let s1 := oo.foldl (fun (s : FSt) op => if s.failed then s else
+          let (s', r) := s.issue op
+          { s' with failed := !r.isOk }) s0
+        ⟨{ st with d := s1.d, rs := s1.rs }, s1.ops, false⟩
+      | none => ⟨st, [], false⟩
     | _, _ => ⟨st, [], false⟩
   | some s0 =>
     let s := addManyWF fc mk s0 items
